@@ -29,17 +29,21 @@ Theorem C05_hydrate_creates_nothing :
 Proof. exact hydrate_creates_nothing. Qed.
 Print Assumptions C05_hydrate_creates_nothing.
 
-(** PARTIAL (positional form of "state bound to the existing nodes, in order"). Proved: the state
-    hydration returns is [st_of v FirstChild [] 0] — each part of the view is bound to the node at the
-    child position where the printer put it in the expected DOM (separators skipped), an element
-    before its children, list items before their marker. Not proved as a separate statement: that
-    the list [bound st] is strictly increasing in document order and misses only separator comments
-    (this is how [st_of] is laid out; the implementation's bound nodes are compared with it on every
-    generated case through the nodes a full rebuild writes to). *)
+(** PARTIAL ("state bound to the existing nodes, in order"). Proved: the state hydration returns is
+    [st_of v FirstChild [] 0] — each part of the view is bound to the node at the child position
+    where the printer put it in the expected DOM (separators skipped), an element before its
+    children, list items before their marker — and the list of bound nodes is strictly increasing in
+    document order (hence pairwise distinct) and lies below the root among the nodes the parser built
+    for this view. Not proved as a separate statement: coverage (that the only unbound nodes are the
+    separator comments between adjacent texts and the inside of inert subtrees); the implementation's
+    bound nodes are compared with [st_of] on every generated case through the nodes a full rebuild
+    writes to. *)
 Theorem C05_hydrate_binds_in_order_partial :
   forall v root st h, wf false v = true -> hydrate_parsed v = Some (root, st, h) ->
-  root = root_of (fst (dom_of v FirstChild)) /\ st = st_of v FirstChild [] 0.
-Proof. exact hydrate_binds_positionally. Qed.
+  st = st_of v FirstChild [] 0 /\
+  Sorted.StronglySorted doc_lt (bound st) /\
+  Forall (under [] 0 (length (fst (dom_of v FirstChild)))) (bound st).
+Proof. exact hydrate_binds_in_order. Qed.
 Print Assumptions C05_hydrate_binds_in_order_partial.
 
 (** PARTIAL (structural form of "behaves like a client-built tree"). Proved, for every view and
